@@ -805,6 +805,475 @@ theorem get_unregistered_panics (dec4 dec12 : Dec Sub) (key : Key) (hk : ¬ (key
   dsimp only
   rw [if_neg hk, hw, ok_bind, hd]
 
+/-! ## bridging `cmap.Decode` to the value-level model `SfntV.CmapTable.decode` (C09)
+
+The value-level model searches the segment list linearly (`searchIdx`) and indexes with `getD`;
+the checked model runs the binary search of `sort.Search` with checked indexing.  They agree
+because the segment list stays strictly sorted by start offset. -/
+
+open SfntV.CmapTable (searchIdx)
+
+theorem rd16_w16 (site : String) (b : Bytes) (i : Nat) (h : i + 1 < b.length) :
+    SfntV.CmapTable.rd16 b i = w16 site b i := by
+  unfold SfntV.CmapTable.rd16 SfntV.CmapTable.rd8 w16 idx
+  rw [List.getElem?_eq_getElem (by omega : i < b.length), List.getElem?_eq_getElem h]
+  rfl
+
+theorem rd32_w32 (site : String) (b : Bytes) (i : Nat) (h : i + 3 < b.length) :
+    SfntV.CmapTable.rd32 b i = w32 site b i := by
+  unfold SfntV.CmapTable.rd32
+  rw [rd16_w16 site b i (by omega), rd16_w16 site b (i + 2) (by omega)]
+  unfold w16 w32 idx
+  rw [List.getElem?_eq_getElem (by omega : i < b.length),
+    List.getElem?_eq_getElem (by omega : i + 1 < b.length),
+    List.getElem?_eq_getElem (by omega : i + 2 < b.length),
+    List.getElem?_eq_getElem (by omega : i + 2 + 1 < b.length)]
+  show Outcome.ok _ = Outcome.ok _
+  apply congrArg Outcome.ok
+  unfold be
+  omega
+
+def Sorted (segs : List Seg) : Prop := segs.Pairwise (fun a b => a.start < b.start)
+
+theorem searchIdx_le (o : Nat) : ∀ segs : List Seg, searchIdx o segs ≤ segs.length
+  | [] => Nat.le_refl _
+  | s :: rest => by
+    unfold searchIdx
+    split
+    · exact Nat.zero_le _
+    · have := searchIdx_le o rest
+      simp only [List.length_cons]; omega
+
+theorem searchIdx_unique (o : Nat) : ∀ (segs : List Seg) (r : Nat), r ≤ segs.length →
+    (∀ k (hk : k < segs.length), k < r → segs[k].start < o) →
+    (∀ (h : r < segs.length), o ≤ segs[r].start) → searchIdx o segs = r
+  | [], r, hr, _, _ => by
+    unfold searchIdx
+    simp only [List.length_nil] at hr
+    omega
+  | s :: rest, r, hr, h1, h2 => by
+    unfold searchIdx
+    split
+    · rename_i hle
+      cases r with
+      | zero => rfl
+      | succ r' =>
+        have := h1 0 (by simp) (by omega)
+        simp only [List.getElem_cons_zero] at this
+        omega
+    · rename_i hnle
+      cases r with
+      | zero =>
+        have := h2 (by simp)
+        simp only [List.getElem_cons_zero] at this
+        omega
+      | succ r' =>
+        have ih := searchIdx_unique o rest r' (by simp only [List.length_cons] at hr; omega)
+          (fun k hk hkr => by
+            have := h1 (k + 1) (by simp only [List.length_cons]; omega) (by omega)
+            simpa only [List.getElem_cons_succ] using this)
+          (fun h => by
+            have := h2 (by simp only [List.length_cons]; omega)
+            simpa only [List.getElem_cons_succ] using this)
+        omega
+
+theorem search_eq (o : Nat) (segs : List Seg) (hs : Sorted segs) : ∀ (fuel i j p : Nat),
+    i ≤ j → j ≤ segs.length → j - i < fuel →
+    (∀ k (hk : k < segs.length), k < i → segs[k].start < o) →
+    (∀ k (hk : k < segs.length), j ≤ k → o ≤ segs[k].start) →
+    ∃ q, search o segs fuel i j p = .ok (searchIdx o segs, q)
+  | 0, _, _, _, _, _, hf, _, _ => by omega
+  | fuel+1, i, j, p, hij, hj, hf, hlo, hhi => by
+    have hsorted := List.pairwise_iff_getElem.mp hs
+    unfold search
+    by_cases hlt : i < j
+    · rw [if_pos hlt]
+      have hh : (i + j) / 2 < segs.length := by omega
+      dsimp only
+      rw [idx_ok _ segs _ hh, ok_bind]
+      split
+      · rename_i hle
+        refine search_eq o segs hs fuel i ((i + j) / 2) (p + 1) (by omega) (by omega) (by omega) hlo ?_
+        intro k hk hkh
+        by_cases e : k = (i + j) / 2
+        · subst e; exact hle
+        · have := hsorted ((i + j) / 2) k hh hk (by omega)
+          omega
+      · rename_i hnle
+        refine search_eq o segs hs fuel ((i + j) / 2 + 1) j (p + 1) (by omega) hj (by omega) ?_ hhi
+        intro k hk hkh
+        by_cases e : k = (i + j) / 2
+        · subst e; omega
+        · have := hsorted k ((i + j) / 2) hk hh (by omega)
+          omega
+    · rw [if_neg hlt]
+      have : searchIdx o segs = i := searchIdx_unique o segs i (by omega) hlo
+        (fun h => hhi i h (by omega))
+      rw [this]
+      exact ⟨p, rfl⟩
+
+theorem getD_eq (segs : List Seg) (k : Nat) (h : k < segs.length) : segs.getD k ⟨0, 0⟩ = segs[k] := by
+  rw [List.getD_eq_getElem?_getD, List.getElem?_eq_getElem h]; rfl
+
+def ofOpt : Option (List Seg) → Outcome (List Seg)
+  | none => .err "malformed"
+  | some s => .ok s
+
+theorem overlap_erase (segs : List Seg) (hs : Sorted segs) (o len : Nat) (c : Cost) :
+    erase (overlap segs o len c) = ofOpt (SfntV.CmapTable.overlap segs o len) := by
+  obtain ⟨q, hq⟩ := search_eq o segs hs (segs.length + 1) 0 segs.length 0 (Nat.zero_le _)
+    (Nat.le_refl _) (by omega) (fun k hk h => by omega) (fun k hk h => by omega)
+  have hr := searchIdx_le o segs
+  unfold overlap SfntV.CmapTable.overlap
+  rw [hq, ok_bind]
+  dsimp only
+  generalize searchIdx o segs = r at hr ⊢
+  have hd : (if r = segs.length then pure true else do
+      let s ← idx "cmap.go:124#segs[idx]" segs r
+      pure (decide (o ≠ s.start)) : Outcome Bool)
+      = .ok (decide (r = segs.length ∨ o ≠ (segs.getD r ⟨0, 0⟩).start)) := by
+    by_cases h : r = segs.length
+    · rw [if_pos h, decide_eq_true (Or.inl h)]; rfl
+    · rw [if_neg h, idx_ok _ segs r (by omega), ok_bind, getD_eq segs r (by omega)]
+      show Outcome.ok _ = Outcome.ok _
+      congr 1
+      by_cases h2 : o ≠ segs[r].start
+      · rw [decide_eq_true h2, decide_eq_true (Or.inr h2)]
+      · rw [decide_eq_false h2, decide_eq_false (by intro h'; rcases h' with h' | h'; exact h h'; exact h2 h')]
+  rw [hd, ok_bind]
+  by_cases hA : r = segs.length ∨ o ≠ (segs.getD r ⟨0, 0⟩).start
+  · rw [decide_eq_true hA, if_pos hA]
+    simp only [Bool.not_true, Bool.false_eq_true, if_false]
+    have hb1 : (if r > 0 then do
+        let s ← idx "cmap.go:125#segs[idx-1]" segs (r - 1)
+        pure (decide (o < s.stop))
+      else pure false : Outcome Bool)
+        = .ok (decide (r > 0 ∧ o < (segs.getD (r - 1) ⟨0, 0⟩).stop)) := by
+      by_cases h : r > 0
+      · rw [if_pos h, idx_ok _ segs (r - 1) (by omega), ok_bind, getD_eq segs (r - 1) (by omega)]
+        show Outcome.ok _ = Outcome.ok _
+        congr 1
+        by_cases h2 : o < segs[r - 1].stop
+        · rw [decide_eq_true h2, decide_eq_true ⟨h, h2⟩]
+        · rw [decide_eq_false h2, decide_eq_false (fun h' => h2 h'.2)]
+      · rw [if_neg h, decide_eq_false (fun h' => h h'.1)]; rfl
+    rw [hb1, ok_bind]
+    by_cases hB : r > 0 ∧ o < (segs.getD (r - 1) ⟨0, 0⟩).stop
+    · rw [decide_eq_true hB, if_pos (Or.inl hB)]
+      rfl
+    · rw [decide_eq_false hB]
+      simp only [Bool.false_eq_true, if_false]
+      have hb2 : (if r < segs.length then do
+          let s ← idx "cmap.go:126#segs[idx]" segs r
+          pure (decide ((o + len) % 4294967296 > s.start))
+        else pure false : Outcome Bool)
+          = .ok (decide (r < segs.length ∧ (o + len) % 4294967296 > (segs.getD r ⟨0, 0⟩).start)) := by
+        by_cases h : r < segs.length
+        · rw [if_pos h, idx_ok _ segs r h, ok_bind, getD_eq segs r h]
+          show Outcome.ok _ = Outcome.ok _
+          congr 1
+          by_cases h2 : (o + len) % 4294967296 > segs[r].start
+          · rw [decide_eq_true h2, decide_eq_true ⟨h, h2⟩]
+          · rw [decide_eq_false h2, decide_eq_false (fun h' => h2 h'.2)]
+        · rw [if_neg h, decide_eq_false (fun h' => h h'.1)]; rfl
+      rw [hb2, ok_bind]
+      by_cases hC : r < segs.length ∧ (o + len) % 4294967296 > (segs.getD r ⟨0, 0⟩).start
+      · rw [decide_eq_true hC, if_pos (Or.inr hC)]
+        rfl
+      · have hBC : ¬ ((r > 0 ∧ o < (segs.getD (r - 1) ⟨0, 0⟩).stop) ∨
+            (r < segs.length ∧ (o + len) % 4294967296 > (segs.getD r ⟨0, 0⟩).start)) :=
+          fun h => h.elim hB hC
+        rw [decide_eq_false hC, if_neg hBC]
+        simp only [Bool.false_eq_true, if_false]
+        rw [if_neg (by omega : ¬ r > segs.length)]
+        rfl
+  · rw [decide_eq_false hA, if_neg hA]
+    rfl
+
+theorem searchIdx_lt (o : Nat) : ∀ (segs : List Seg) (k : Nat) (hk : k < segs.length),
+    k < searchIdx o segs → segs[k].start < o
+  | [], _, hk, _ => by simp at hk
+  | s :: rest, k, hk, h => by
+    unfold searchIdx at h
+    split at h
+    · omega
+    · rename_i hn
+      cases k with
+      | zero => simp only [List.getElem_cons_zero]; omega
+      | succ k' =>
+        simp only [List.getElem_cons_succ]
+        exact searchIdx_lt o rest k' (by simp only [List.length_cons] at hk; omega) (by omega)
+
+theorem searchIdx_ge (o : Nat) : ∀ (segs : List Seg) (r : Nat), r = searchIdx o segs →
+    ∀ (h : r < segs.length), o ≤ segs[r].start
+  | [], _, _, h => by simp at h
+  | s :: rest, r, hr, h => by
+    unfold searchIdx at hr
+    split at hr
+    · subst hr
+      simpa only [List.getElem_cons_zero]
+    · subst hr
+      simp only [List.getElem_cons_succ]
+      exact searchIdx_ge o rest _ rfl _
+
+theorem insert_sorted (segs : List Seg) (hs : Sorted segs) (o e : Nat)
+    (hA : searchIdx o segs = segs.length ∨ o ≠ (segs.getD (searchIdx o segs) ⟨0, 0⟩).start) :
+    Sorted (insertAt segs (searchIdx o segs) ⟨o, e⟩) := by
+  have hr := searchIdx_le o segs
+  have hlt := searchIdx_lt o segs
+  have hge := searchIdx_ge o segs _ rfl
+  generalize searchIdx o segs = r at hr hlt hge hA
+  have hsorted := List.pairwise_iff_getElem.mp hs
+  have hdrop : ∀ b ∈ segs.drop r, o < b.start := by
+    intro b hb
+    obtain ⟨k, hk, hb⟩ := List.mem_iff_getElem.mp hb
+    rw [List.length_drop] at hk
+    rw [List.getElem_drop] at hb
+    subst hb
+    have hrl : r < segs.length := by omega
+    have h0 : o < segs[r].start := by
+      have := hge hrl
+      rcases hA with hA | hA
+      · omega
+      · rw [getD_eq segs r hrl] at hA
+        omega
+    by_cases hk0 : k = 0
+    · subst hk0; exact h0
+    · have := hsorted r (r + k) hrl (by omega) (by omega)
+      omega
+  have htake : ∀ a ∈ segs.take r, a.start < o := by
+    intro a ha
+    obtain ⟨k, hk, ha⟩ := List.mem_iff_getElem.mp ha
+    rw [List.length_take] at hk
+    rw [List.getElem_take] at ha
+    subst ha
+    exact hlt k (by omega) (by omega)
+  unfold Sorted insertAt
+  rw [List.pairwise_append]
+  refine ⟨hs.sublist (List.take_sublist _ _), ?_, ?_⟩
+  · rw [List.pairwise_cons]
+    exact ⟨fun b hb => hdrop b hb, hs.sublist (List.drop_sublist _ _)⟩
+  · intro a ha b hb
+    have h1 := htake a ha
+    rcases List.mem_cons.mp hb with hb | hb
+    · subst hb; exact h1
+    · have := hdrop b hb
+      omega
+
+theorem overlap_sorted (segs segs' : List Seg) (hs : Sorted segs) (o len : Nat)
+    (h : SfntV.CmapTable.overlap segs o len = some segs') : Sorted segs' := by
+  unfold SfntV.CmapTable.overlap at h
+  dsimp only at h
+  split at h
+  · rename_i hA
+    split at h
+    · cases h
+    · injection h with h
+      subst h
+      exact insert_sorted segs hs o _ hA
+  · injection h with h
+    subst h
+    exact hs
+
+theorem erase_eq_ok {x : Outcome (α × Cost)} {a : α} (h : erase x = .ok a) : ∃ c, x = .ok (a, c) := by
+  cases x with
+  | ok p => obtain ⟨a', c⟩ := p; injection h with h; subst h; exact ⟨c, rfl⟩
+  | err e => cases h
+  | panic s => cases h
+
+theorem erase_eq_err {x : Outcome (α × Cost)} {e : String} (h : erase x = .err e) : x = .err e := by
+  cases x with
+  | ok p => obtain ⟨a', c⟩ := p; cases h
+  | err e' => injection h with h; rw [h]
+  | panic s => cases h
+
+theorem lenLang_erase (b : Bytes) (eod o : Nat) (k : HdrKind) (heod : eod = b.length)
+    (h32 : b.length < 4294967296) (h12 : 12 ≤ b.length) (ho : o + 10 ≤ b.length) :
+    SfntV.CmapTable.lenLang b eod o k = lenLang b eod o k := by
+  unfold SfntV.CmapTable.lenLang lenLang
+  cases k with
+  | len16 =>
+    dsimp only
+    rw [rd16_w16 "cmap.go:92#data[o+2],data[o+3]" b (o + 2) (by omega),
+      rd16_w16 "cmap.go:93#data[o+4],data[o+5]" b (o + 4) (by omega)]
+    obtain ⟨v, hv, _⟩ := w16_ok "cmap.go:92#data[o+2],data[o+3]" b (o + 2) (by omega)
+    obtain ⟨w, hw, _⟩ := w16_ok "cmap.go:93#data[o+4],data[o+5]" b (o + 4) (by omega)
+    rw [hv, hw]
+    rfl
+  | len32 =>
+    dsimp only
+    by_cases hgt : o > sub32 eod 12
+    · rw [if_pos hgt, if_pos hgt]
+    · rw [if_neg hgt, if_neg hgt]
+      rw [heod, sub32_eq _ _ (by omega) h32] at hgt
+      rw [rd32_w32 "cmap.go:99#data[o+4..o+7]" b (o + 4) (by omega),
+        rd16_w16 "cmap.go:103#data[o+10],data[o+11]" b (o + 10) (by omega)]
+      obtain ⟨v, hv⟩ := w32_ok "cmap.go:99#data[o+4..o+7]" b (o + 4) (by omega)
+      obtain ⟨w, hw, _⟩ := w16_ok "cmap.go:103#data[o+10],data[o+11]" b (o + 10) (by omega)
+      rw [hv, hw]
+      rfl
+  | len14 =>
+    dsimp only
+    rw [rd32_w32 "cmap.go:105#data[o+2..o+5]" b (o + 2) (by omega)]
+    obtain ⟨v, hv⟩ := w32_ok "cmap.go:105#data[o+2..o+5]" b (o + 2) (by omega)
+    rw [hv]
+    rfl
+  | bad => rfl
+
+/-- forget the cost of one record -/
+def erase2 : Outcome (α × β × Cost) → Outcome (α × β)
+  | .ok (a, b, _) => .ok (a, b)
+  | .err e => .err e
+  | .panic _ => .panic ""
+
+theorem record_erase (b : Bytes) (eoh eod i : Nat) (segs : List Seg) (c : Cost)
+    (heod : eod = b.length) (h32 : b.length < 4294967296) (hi : 4 + 8 * (i + 1) ≤ b.length)
+    (hs : Sorted segs) :
+    erase2 (record b eoh eod i segs c) = SfntV.CmapTable.record b eoh eod i segs ∧
+    ∀ kd segs', SfntV.CmapTable.record b eoh eod i segs = .ok (kd, segs') → Sorted segs' := by
+  unfold record SfntV.CmapTable.record
+  rw [rd16_w16 "cmap.go:72#data[4+i*8],data[5+i*8]" b (4 + i * 8) (by omega),
+    rd16_w16 "cmap.go:76#data[6+i*8],data[7+i*8]" b (6 + i * 8) (by omega),
+    rd32_w32 "cmap.go:78#data[8+i*8..11+i*8]" b (8 + i * 8) (by omega)]
+  obtain ⟨p, hp, _⟩ := w16_ok "cmap.go:72#data[4+i*8],data[5+i*8]" b (4 + i * 8) (by omega)
+  obtain ⟨e, he, _⟩ := w16_ok "cmap.go:76#data[6+i*8],data[7+i*8]" b (6 + i * 8) (by omega)
+  obtain ⟨o, ho⟩ := w32_ok "cmap.go:78#data[8+i*8..11+i*8]" b (8 + i * 8) (by omega)
+  rw [hp, ok_bind]
+  dsimp only
+  by_cases hp4 : p > 4
+  · rw [if_pos hp4, if_pos hp4]
+    exact ⟨rfl, fun _ _ h => by cases h⟩
+  rw [if_neg hp4, if_neg hp4, he, ok_bind, ho, ok_bind]
+  dsimp only
+  by_cases hoo : o < eoh ∨ o > sub32 eod 10
+  · rw [if_pos hoo, if_pos hoo]
+    exact ⟨rfl, fun _ _ h => by cases h⟩
+  rw [if_neg hoo, if_neg hoo]
+  rw [heod, sub32_eq _ _ (by omega) h32] at hoo
+  have ho10 : o + 10 ≤ b.length := by omega
+  rw [rd16_w16 "cmap.go:88#data[o],data[o+1]" b o (by omega)]
+  obtain ⟨f, hf, _⟩ := w16_ok "cmap.go:88#data[o],data[o+1]" b o (by omega)
+  rw [hf, ok_bind]
+  dsimp only
+  rw [lenLang_erase b eod o (hdrKind f) heod h32 (by omega) ho10]
+  cases hl : lenLang b eod o (hdrKind f) with
+  | panic s =>
+    have := lenLang_noPanic b eod o (hdrKind f) heod h32 (by omega) ho10
+    rw [hl] at this
+    exact absurd this (by intro h; exact h)
+  | err e' => exact ⟨rfl, fun _ _ h => by cases h⟩
+  | ok r =>
+    obtain ⟨len, lang, chk⟩ := r
+    rw [ok_bind]
+    dsimp only
+    by_cases hlen : len < chk ∨ len > sub32 eod o
+    · rw [if_pos hlen, if_pos hlen]
+      exact ⟨rfl, fun _ _ h => by cases h⟩
+    rw [if_neg hlen, if_neg hlen]
+    rw [heod, sub32_eq _ _ (by omega) h32] at hlen
+    have hmod : (o + len) % 4294967296 = o + len := Nat.mod_eq_of_lt (by omega)
+    have hov := overlap_erase segs hs o len c
+    cases hth : SfntV.CmapTable.overlap segs o len with
+    | none =>
+      rw [hth] at hov
+      rw [erase_eq_err hov]
+      exact ⟨rfl, fun _ _ h => by cases h⟩
+    | some segs1 =>
+      rw [hth] at hov
+      obtain ⟨c1, hc1⟩ := erase_eq_ok hov
+      rw [hc1, ok_bind]
+      dsimp only
+      rw [hmod, slice_ok _ _ _ _ (by omega) (by omega), ok_bind]
+      unfold SfntV.CmapTable.slice
+      rw [if_neg (by omega : ¬ o + len > b.length), Nat.add_sub_cancel_left]
+      refine ⟨rfl, fun kd segs' h => ?_⟩
+      injection h with h
+      injection h with _ h2
+      subst h2
+      exact overlap_sorted segs segs1 hs o len hth
+
+theorem erase2_eq_ok {x : Outcome (α × β × Cost)} {a : α} {b : β} (h : erase2 x = .ok (a, b)) :
+    ∃ c, x = .ok (a, b, c) := by
+  cases x with
+  | ok p =>
+    obtain ⟨a', b', c⟩ := p
+    injection h with h
+    injection h with h1 h2
+    subst h1 h2
+    exact ⟨c, rfl⟩
+  | err e => cases h
+  | panic s => cases h
+
+theorem erase2_eq_err {x : Outcome (α × β × Cost)} {e : String} (h : erase2 x = .err e) : x = .err e := by
+  cases x with
+  | ok p => obtain ⟨a', b', c⟩ := p; cases h
+  | err e' => injection h with h; rw [h]
+  | panic s => cases h
+
+theorem loop_erase (b : Bytes) (eoh eod : Nat) (heod : eod = b.length) (h32 : b.length < 4294967296) :
+    ∀ (k i : Nat) (segs : List Seg) (c : Cost), 4 + 8 * (i + k) ≤ b.length → Sorted segs →
+    segs.length ≤ i →
+    erase (loop b eoh eod k i segs c) = SfntV.CmapTable.loop b eoh eod i k segs
+  | 0, i, segs, c, _, _, _ => by
+    unfold loop SfntV.CmapTable.loop
+    rfl
+  | k+1, i, segs, c, hik, hs, hsl => by
+    unfold loop SfntV.CmapTable.loop
+    obtain ⟨hr, hsorted⟩ := record_erase b eoh eod i segs c.tick heod h32 (by omega) hs
+    cases hth : SfntV.CmapTable.record b eoh eod i segs with
+    | panic s =>
+      rw [hth] at hr
+      have := (record_spec b eoh eod i segs c.tick heod h32 (by omega)).1
+      cases hm : record b eoh eod i segs c.tick with
+      | panic s' => rw [hm] at this; exact absurd this (by intro h; exact h)
+      | err e => rw [hm] at hr; cases hr
+      | ok r => obtain ⟨x, y, z⟩ := r; rw [hm] at hr; cases hr
+    | err e =>
+      rw [hth] at hr
+      rw [erase2_eq_err hr]
+      rfl
+    | ok r =>
+      obtain ⟨kd, segs1⟩ := r
+      rw [hth] at hr
+      obtain ⟨c1, hc1⟩ := erase2_eq_ok hr
+      rw [hc1, ok_bind]
+      dsimp only
+      have hsl1 : segs1.length ≤ i + 1 := by
+        have := (record_spec b eoh eod i segs c.tick heod h32 (by omega)).2 kd segs1 c1 hc1
+        exact Nat.le_trans this.2.2.1 (by omega)
+      have ih := loop_erase b eoh eod heod h32 k (i + 1) segs1 c1 (by omega) (hsorted kd segs1 hth) hsl1
+      rw [← ih]
+      cases hl : loop b eoh eod k (i + 1) segs1 c1 with
+      | ok r2 => obtain ⟨t, c2⟩ := r2; rfl
+      | err e => rfl
+      | panic s =>
+        have := (loop_spec b eoh eod heod h32 k (i + 1) segs1 c1 (by omega) hsl1).1
+        rw [hl] at this
+        exact absurd this (by intro h; exact h)
+
+/-- bridging lemma: erasing the cost from the checked-index model of `cmap.Decode` gives the
+value-level model of C09 on every input (neither model panics) -/
+theorem Decode_erase (b : Bytes) : erase (decode b) = SfntV.CmapTable.decode b := by
+  unfold decode SfntV.CmapTable.decode
+  by_cases hlen : b.length < 4 ∨ b.length > 4294967295
+  · rw [if_pos hlen, if_pos hlen]; rfl
+  rw [if_neg hlen, if_neg hlen]
+  rw [rd16_w16 "cmap.go:53#data[0],data[1]" b 0 (by omega),
+    rd16_w16 "cmap.go:57#data[2],data[3]" b 2 (by omega)]
+  obtain ⟨v, hv, _⟩ := w16_ok "cmap.go:53#data[0],data[1]" b 0 (by omega)
+  obtain ⟨n, hn, _⟩ := w16_ok "cmap.go:57#data[2],data[3]" b 2 (by omega)
+  rw [hv, ok_bind]
+  dsimp only
+  by_cases hv0 : v ≠ 0
+  · rw [if_pos hv0, if_pos hv0]; rfl
+  rw [if_neg hv0, if_neg hv0, hn, ok_bind]
+  dsimp only
+  by_cases hnl : b.length < 4 + 8 * n
+  · rw [if_pos hnl, if_pos hnl]; rfl
+  rw [if_neg hnl, if_neg hnl]
+  exact loop_erase b _ b.length rfl (by omega) n 0 [] _ (by omega) List.Pairwise.nil (Nat.le_refl _)
+
+
 /-! ## non-vacuity: concrete valid inputs -/
 
 /-- the cost of a successful run -/
